@@ -48,6 +48,8 @@ func init() {
 		"errors.Is":                                   errorsIs,
 		"errors.As":                                   errorsAs,
 		"strconv.FormatUint":                          strconvFormat,
+		"strconv.FormatInt":                           strconvFormat,
+		"strconv.Itoa":                                strconvFormat,
 		"strings.ContainsAny":                         stringsContainsAny,
 		"strings.Contains":                            stringsContains,
 		"strings.Split":                               stringsSplit,
@@ -670,6 +672,23 @@ func errorsAs(e *Engine, st *State, args []Value, depth int, pos string, k func(
 
 func strconvFormat(e *Engine, st *State, args []Value, depth int, pos string, k func(*State, Value)) {
 	if s, ok := args[0].(VSym); ok {
+		base10 := len(args) < 2
+		if len(args) >= 2 {
+			if b, ok := args[1].(VSym); ok {
+				if c, ok := b.T.intConst(); ok && c.Int64() == 10 {
+					base10 = true
+				}
+			}
+		}
+		if base10 {
+			// the decimal rendering of an integer: the same text fmt's %d produces (a literal with a hole)
+			if c, ok := s.T.intConst(); ok {
+				k(st, sym(e.strLit(c.String())))
+				return
+			}
+			k(st, sym(e.strLit(e.hole(s.T))))
+			return
+		}
 		k(st, sym(App(SStr, "s.ofint", s.T)))
 		return
 	}
@@ -716,6 +735,11 @@ func stringsReplace(e *Engine, st *State, args []Value, depth int, pos string, k
 		ts = append(ts, e.valueKeyTerm(st, a))
 	}
 	k(st, sym(e.uninterpretedStr(st, "replace", ts)))
+}
+
+// strings.ReplaceAll(s, old, new) == strings.Replace(s, old, new, -1)
+func stringsReplaceAll(e *Engine, st *State, args []Value, depth int, pos string, k func(*State, Value)) {
+	stringsReplace(e, st, append(append([]Value{}, args...), sym(IntLit(-1))), depth, pos, k)
 }
 
 func crcChecksum(e *Engine, st *State, args []Value, depth int, pos string, k func(*State, Value)) {
